@@ -30,6 +30,7 @@ type scen struct {
 	exts      []extCfg
 	internals [][]string // event lists of internal extensions (registered by the runtime process before its first next)
 	rtStall   bool       // runtime never polls
+	rtStall1  bool       // the runtime of the first generation never polls (timeout, reset); in the next generation everybody arrives
 	late      bool       // the runtime tries to register one more extension after its first delivery
 	racingInt int        // an internal extension on a thread of its own registers once the runtime has issued its first next (racing with the closing of registration) and, if accepted, polls after this many ms
 	bound     int
@@ -59,6 +60,9 @@ func (s scen) name() string {
 	}
 	if s.racingInt > 0 {
 		in = append(in, fmt.Sprintf("int-racing-with-runtime-next(polls after %d ms)", s.racingInt))
+	}
+	if s.rtStall1 {
+		in = append(in, "runtime-stalls-in-generation-1-only")
 	}
 	return fmt.Sprintf("ext=[%s] %s rtStall=%v late=%v B=%d", strings.Join(p, ","), strings.Join(in, ","), s.rtStall, s.late, s.bound)
 }
@@ -96,7 +100,7 @@ func (s scen) config(r **rec) *stack.Config {
 		}})
 	}
 	cfg.Runtime = func(rt *stack.Actor) {
-		if s.rtStall {
+		if s.rtStall || (s.rtStall1 && rt.Gen == 1) {
 			rt.Stall()
 		}
 		for i, ev := range s.internals {
@@ -153,7 +157,7 @@ func (s scen) config(r **rec) *stack.Config {
 }
 
 func (s scen) anyStall() bool {
-	if s.rtStall {
+	if s.rtStall || s.rtStall1 {
 		return true
 	}
 	for _, e := range s.exts {
@@ -175,7 +179,7 @@ func (s scen) run(c *hx.Ctx) *hx.ScenarioResult {
 		w := stack.NewWorld(cfg)
 		w.Invoke([]byte(`{"n":1}`), nil)
 		sched.Region(false)
-		if !s.anyStall() {
+		if !s.anyStall() || s.rtStall1 {
 			w.Invoke([]byte(`{"n":2}`), nil)
 		}
 		sched.Finish()
@@ -320,6 +324,12 @@ func (s scen) judge(e *sched.Exec) (string, string, *sched.Failure) {
 			failf("6", "stall-outcome", "one party never arrived; the caller got status %d body %q instead of the timeout outcome", inv.Status, trunc(inv.Body))
 		}
 	}
+	if s.rtStall1 && len(w.Invokes) > 1 {
+		// all parties of the next generation arrive: its initialisation completes and the invocation is served
+		if inv2 := w.Invokes[1]; inv2.Status != 200 || string(inv2.Body) != `{"n":2}` {
+			failf("5", "next-generation-init-did-not-complete", "every party of the generation started after the timeout arrived, but the invocation ended with status %d body %q", inv2.Status, trunc(inv2.Body))
+		}
+	}
 	var ds []string
 	for _, d := range deliveries {
 		ds = append(ds, d.Actor)
@@ -393,6 +403,9 @@ func init() {
 		// late registration
 		ss = append(ss, scen{late: true, bound: b})
 		ss = append(ss, scen{exts: []extCfg{{name: "x", events: []string{"INVOKE"}}}, late: true, bound: b})
+		// the first generation times out; in the next one everybody arrives
+		ss = append(ss, scen{rtStall1: true, bound: b})
+		ss = append(ss, scen{exts: []extCfg{{name: "x", events: []string{"INVOKE", "SHUTDOWN"}}}, rtStall1: true, bound: b})
 		// one party held back for ever
 		ss = append(ss, scen{rtStall: true, bound: b})
 		ss = append(ss, scen{exts: []extCfg{{name: "x", events: []string{"INVOKE"}}}, rtStall: true, bound: b})
